@@ -5,6 +5,7 @@ import (
 	"bytes"
 	"fmt"
 	"io"
+	"os"
 
 	"github.com/ulikunitz/xz"
 
@@ -26,7 +27,7 @@ type XZWCase struct {
 	Shape []Seg
 	Parts []int `json:",omitempty"`
 	// Env marks the environment family: Feed = how the input behind Parts is handed over (feedOf), Sink =
-	// kind of sink (0 bare io.Writer, 1 also io.ByteWriter, 2 *bytes.Buffer, 3 *bufio.Writer over a bare
+	// kind of sink (0 bare io.Writer, 1 also io.ByteWriter, 2 *bytes.Buffer, 4 *os.File, 3 *bufio.Writer over a bare
 	// sink, flushed by the caller after every call), and the stream is decoded through several kinds of
 	// source and drained by io.Copy as well
 	Env  bool `json:",omitempty"`
@@ -67,6 +68,7 @@ func xzWriteExec(p XZWCase, data []byte) (sink []byte, calls []callRes, verr err
 	sb := &sbb.sinkBuf
 	var bbuf bytes.Buffer
 	var bw *bufio.Writer
+	var tf *os.File
 	var sinkW io.Writer = sb
 	switch p.Sink {
 	case 1:
@@ -76,6 +78,9 @@ func xzWriteExec(p XZWCase, data []byte) (sink []byte, calls []callRes, verr err
 	case 3:
 		bw = bufio.NewWriterSize(sb, 512)
 		sinkW = bw
+	case 4:
+		tf = tempFileWith(nil)
+		sinkW = tf
 	}
 	sync := func() {
 		if bw != nil {
@@ -84,7 +89,20 @@ func xzWriteExec(p XZWCase, data []byte) (sink []byte, calls []callRes, verr err
 		if p.Sink == 2 {
 			sb.b = bbuf.Bytes()
 		}
+		if tf != nil {
+			if fi, err := tf.Stat(); err == nil {
+				b := make([]byte, fi.Size())
+				if _, err := tf.ReadAt(b, 0); err == nil || err == io.EOF {
+					sb.b = b
+				}
+			}
+		}
 	}
+	defer func() {
+		if tf != nil {
+			tf.Close()
+		}
+	}()
 	pan = core.Guard(func() {
 		w, err := p.Cfg.open(sinkW)
 		sync()
@@ -184,7 +202,7 @@ func xzWriteCase(r *core.Run, prop string, p XZWCase) {
 	site := xzWriterSite(p, data)
 	desc := fmt.Sprintf("cfg=%s input=%s (%d bytes) parts=%v", p.Cfg, shapeString(p.Shape), len(data), p.Parts)
 	if p.Env {
-		desc += fmt.Sprintf(" fed by %s, sink kind %d (0 bare, 1 ByteWriter, 2 bytes.Buffer, 3 bufio.Writer)", feedModeNames[p.Feed], p.Sink)
+		desc += fmt.Sprintf(" fed by %s, sink kind %d (0 bare, 1 ByteWriter, 2 bytes.Buffer, 3 bufio.Writer, 4 os.File)", feedModeNames[p.Feed], p.Sink)
 	}
 	if pan != nil {
 		if prop == "C01" {
@@ -274,13 +292,17 @@ func xzWriteCase(r *core.Run, prop string, p XZWCase) {
 		}
 		// environment family: the same stream through other kinds of source, drained by io.Copy
 		if p.Env && rp == nil && proto == "" {
-			for _, v := range [][2]int{{4, 0}, {2, 1}, {5, 2}, {10, 0}} {
+			for _, v := range [][2]int{{4, 0}, {2, 1}, {5, 2}, {10, 0}, {12, 1}} {
 				var out3 []byte
 				var err3 error
 				var proto3 string
 				rp3 := core.Guard(func() {
 					var rd io.Reader
-					rd, err3 = xz.ReaderConfig{DictCap: 4096}.NewReader(sourceOf(v[0], sink))
+					source := sourceOf(v[0], sink)
+					if c, ok := source.(io.Closer); ok {
+						defer c.Close()
+					}
+					rd, err3 = xz.ReaderConfig{DictCap: 4096}.NewReader(source)
 					if err3 != nil {
 						return
 					}
@@ -911,7 +933,7 @@ func c01Cases(r *core.Run, prop string) []XZWCase {
 		for _, blk := range []int64{0, 3000} {
 			for _, ck := range []byte{1, 4} {
 				for feed := 0; feed < nFeedModes; feed++ {
-					for sk := 0; sk < 4; sk++ {
+					for sk := 0; sk < 5; sk++ {
 						c := XZCfg{DictCap: 4096, BlockSize: blk, Check: ck}
 						if (si+feed+sk)%3 == 1 {
 							c.DictCap = 6144
@@ -944,7 +966,7 @@ func runXZW(r *core.Run, prop string) {
 }
 
 func runC01(r *core.Run) {
-	r.Rule = "enumeration of the writer space: (a) all strings over {00,'a','b'} up to length n, alone / before / after a compressible tail, x both matchers x property corners; (b) all 75 lc/lp/pb sets x matchers x 8 inputs; (c) DictCap x BufSize x BlockSize(incl. 1, len-1, len, len+1) x 5 checks x matchers x depth-1 shapes; (d) all shape lists of depth 2 (3 when thorough) incl. 64KiB/2MiB chunk limits; (e) all compositions of 6-byte inputs into Write calls + zero-length writes + boundary cuts; (f) all call histories over {Write small, Write empty, Write 70000, Close} up to depth 4 (5); (s) environment family: depth-1 shapes x {one, several blocks} x input handed over by Write / io.Copy from four kinds of bare reader x four kinds of sink (bare, io.ByteWriter, *bytes.Buffer, *bufio.Writer), each stream decoded through five kinds of source. Oracle: calls succeed, library reader returns the input then io.EOF, calls after Close fail and emit nothing. states = (blocks, chunks, first chunk kind) classes of the emitted stream; transitions = chunk-automaton steps and call-history prefixes observed; non-trivial = distinct (result class, history length) pairs"
+	r.Rule = "enumeration of the writer space: (a) all strings over {00,'a','b'} up to length n, alone / before / after a compressible tail, x both matchers x property corners; (b) all 75 lc/lp/pb sets x matchers x 8 inputs; (c) DictCap x BufSize x BlockSize(incl. 1, len-1, len, len+1) x 5 checks x matchers x depth-1 shapes; (d) all shape lists of depth 2 (3 when thorough) incl. 64KiB/2MiB chunk limits; (e) all compositions of 6-byte inputs into Write calls + zero-length writes + boundary cuts; (f) all call histories over {Write small, Write empty, Write 70000, Close} up to depth 4 (5); (s) environment family: depth-1 shapes x {one, several blocks} x input handed over by Write / io.Copy from four kinds of bare reader x five kinds of sink (bare, io.ByteWriter, *bytes.Buffer, *bufio.Writer, *os.File), each stream decoded through five kinds of source. Oracle: calls succeed, library reader returns the input then io.EOF, calls after Close fail and emit nothing. states = (blocks, chunks, first chunk kind) classes of the emitted stream; transitions = chunk-automaton steps and call-history prefixes observed; non-trivial = distinct (result class, history length) pairs"
 	runXZW(r, "C01")
 	r.Assume("BinaryTree cases use dictionaries <= 64 KiB and low-entropy segments <= 64 KiB (quadratic matcher, cost bound)")
 }
